@@ -415,6 +415,13 @@ TIES = {
                            'registered_tie', 'registered_eq_ofClauses'],
                  cxx='handle_co_yield / handle_co_return / handle_co_throw ::action (registration of the CO_ clauses, shared yield list) '
                      'and co_return_handler_t::call (the coroutine body) (coro.hpp)'),
+    'Params': dict(props=['C01', 'C15'], gen=['MatchParameters', 'PrintMismatchOne', 'PrintMismatchAll', 'MissedValue', 'StreamParams'],
+                   theorems=['match_parameters_eq', 'match_parameters_tie', 'print_mismatch_one_eq', 'print_mismatch_all_eq', 'print_mismatch_tie',
+                             'missed_value_eq', 'stream_params_eq'],
+                   cxx='match_parameters, print_mismatch, missed_value, stream_params (mock.hpp): the pack folds over the parameter positions'),
+    'Trace': dict(props=['C17'], gen=['TraceAgentCtor', 'TraceAgentDtor', 'TraceParams', 'TraceReturn', 'TraceException'],
+                  theorems=['trace_agent_ctor_tie', 'trace_agent_dtor_tie', 'trace_params_tie', 'trace_return_tie', 'trace_exception_tie', 'trace_record_tie'],
+                  cxx='class trace_agent: constructor, destructor, trace_params, trace_return, trace_exception (mock.hpp)'),
     'Ring': dict(props=['C14'], gen=['RingUnlink', 'RingElemDtor', 'RingMoveAssign', 'RingPushFront', 'RingPushBack', 'RingBegin', 'RingEnd',
                                     'RingIterIncr', 'RingIsLinked', 'RingListDtor'],
                  theorems=['ring_unlink_tie', 'ring_elem_dtor_tie', 'ring_move_assign_tie', 'ring_push_front_tie', 'ring_push_back_tie',
